@@ -94,6 +94,10 @@ Definition won_early (pc : cpc) : bool := match pc with CUnreg | CDrain => true 
 Definition drained (pc : cpc) : bool := match pc with CUnlock => true | _ => is_win pc end.
 Definition unr (pc : cpc) : bool := match pc with CDrain | CUnlock => true | _ => is_win pc end.
 Definition lost (pc : cpc) : bool := match pc with CDone c => c =? 2 | _ => false end.
+(* past the compare-and-swap / before the mark / the teardown packet written *)
+Definition pre (pc : cpc) : bool := match pc with CSend | CLockReq | CLockAcq | CMark => true | _ => false end.
+Definition passed (pc : cpc) : bool := pre pc || won pc.
+Definition sent (pc : cpc) : bool := match pc with CLockReq | CLockAcq | CMark => true | _ => won pc end.
 (* program points a closer of a logical channel never reaches: the logout, Conn.Close's own steps, other results *)
 Definition bad (left : bool) (pc : cpc) : bool :=
   match pc with
@@ -103,12 +107,14 @@ Definition bad (left : bool) (pc : cpc) : bool :=
   end.
 Definition crk (pc : cpc) : Z :=
   match pc with
-  | CStart => 9 | CSend => 8 | CLockReq => 7 | CLockAcq => 6 | CMark => 5 | CUnreg => 4 | CDrain => 3 | CUnlock => 2
+  | CStart => 10 | CCas => 9 | CSend => 8 | CLockReq => 7 | CLockAcq => 6 | CMark => 5 | CUnreg => 4 | CDrain => 3 | CUnlock => 2
   | _ => 0
   end.
 
+(* the invariant of the code as it is (compare-and-swap present); the re-check under the write lock may or may not be
+   there: it is never reached with `closed` set *)
 Definition cinv (s : csys) : Prop :=
-  c_recheck s = true /\
+  c_guard s = true /\
   cnt crit (c_pcs s) = b2z (c_wheld s) /\
   cnt waits (c_pcs s) = c_pending s /\
   cnt won (c_pcs s) = b2z (c_closed s) /\
@@ -117,17 +123,30 @@ Definition cinv (s : csys) : Prop :=
   c_registered s = (c_unregs s =? 0) /\
   c_panic s = false /\
   cnt (bad (c_left s)) (c_pcs s) = 0 /\
-  (c_closed s = false -> cnt lost (c_pcs s) = 0).
+  (c_closing s = false -> cnt lost (c_pcs s) = 0) /\
+  cnt passed (c_pcs s) = b2z (c_closing s) /\
+  cnt sent (c_pcs s) = c_teardowns s.
 
 Lemma won_split : forall l, cnt won l = cnt won_early l + cnt drained l.
 Proof. intros l. apply cnt_add. intros pc. destruct pc; cbn; lia. Qed.
 
+Lemma passed_split : forall l, cnt passed l = cnt pre l + cnt won l.
+Proof.
+  intros l. apply cnt_add. intros pc. unfold passed. destruct pc; cbn; lia.
+Qed.
+
 Lemma unr_le_won : forall l, cnt unr l <= cnt won l.
 Proof. intros l. apply cnt_le. intros pc. destruct pc; cbn; lia. Qed.
 
-Lemma cinv_init : forall left n, cinv (cinit true left n).
+Lemma sent_le_passed : forall l, cnt sent l <= cnt passed l.
 Proof.
-  intros left n. unfold cinv, cinit. cbn [c_recheck c_wheld c_pending c_closed c_unregs c_nil c_registered c_panic c_left c_pcs b2z].
+  intros l. apply cnt_le. intros pc. unfold passed. destruct pc; cbn; lia.
+Qed.
+
+Lemma cinv_init : forall recheck left n, cinv (cinit true recheck left n).
+Proof.
+  intros recheck left n. unfold cinv, cinit.
+  cbn [c_guard c_recheck c_wheld c_pending c_closed c_closing c_unregs c_nil c_registered c_panic c_left c_pcs c_teardowns b2z].
   rewrite !cnt_repeat by reflexivity. repeat split; reflexivity.
 Qed.
 
@@ -139,28 +158,32 @@ Ltac b2z_compute :=
 
 Lemma cinv_step : forall s i s', cinv s -> cstep s i = Some s' -> cinv s'.
 Proof.
-  intros s i s' [H1 [H2 [H3 [H4 [H5 [H6 [H7 [H8 [H9 H10]]]]]]]]] H.
+  intros s i s' [H1 [H2 [H3 [H4 [H5 [H6 [H7 [H8 [H9 [H10 [H11 H12]]]]]]]]]]] H.
   unfold cstep in H. destruct (nth_error (c_pcs s) i) as [pc|] eqn:E; [|discriminate H].
   pose proof (cnt_elem crit _ _ _ E) as Ecrit. pose proof (cnt_elem waits _ _ _ E) as Ewaits.
   pose proof (cnt_elem won _ _ _ E) as Ewon. pose proof (cnt_elem won_early _ _ _ E) as Eearly.
   pose proof (cnt_elem drained _ _ _ E) as Edrained. pose proof (cnt_elem unr _ _ _ E) as Eunr.
   pose proof (cnt_elem lost _ _ _ E) as Elost. pose proof (cnt_elem (bad (c_left s)) _ _ _ E) as Ebad.
+  pose proof (cnt_elem pre _ _ _ E) as Epre. pose proof (cnt_elem passed _ _ _ E) as Epassed.
+  pose proof (cnt_elem sent _ _ _ E) as Esent.
   pose proof (won_split (c_pcs s)) as Hsplit. pose proof (unr_le_won (c_pcs s)) as Hle.
+  pose proof (passed_split (c_pcs s)) as Hsplit2.
   pose proof (cnt_nonneg won_early (c_pcs s)) as N1. pose proof (cnt_nonneg drained (c_pcs s)) as N2.
   pose proof (cnt_nonneg unr (c_pcs s)) as N3. pose proof (cnt_nonneg lost (c_pcs s)) as N4.
   pose proof (cnt_nonneg crit (c_pcs s)) as N5. pose proof (cnt_nonneg waits (c_pcs s)) as N6.
-  destruct s as [rc lf cl nl rg un td pd wh pn pcs].
-  cbn [c_recheck c_wheld c_pending c_closed c_unregs c_nil c_registered c_panic c_left c_pcs c_teardowns] in *.
-  subst rc. subst rg. subst pn.
+  pose proof (cnt_nonneg pre (c_pcs s)) as N7. pose proof (cnt_nonneg won (c_pcs s)) as N8.
+  destruct s as [gd rc lf cg cl nl rg un td pd wh pn pcs].
+  cbn [c_guard c_recheck c_wheld c_pending c_closed c_closing c_unregs c_nil c_registered c_panic c_left c_pcs c_teardowns] in *.
+  subst gd. subst rg. subst pn.
   destruct (0 <? pd) eqn:Epd;
-  destruct pc; try discriminate H; destruct lf; destruct cl; destruct nl; destruct wh;
+  destruct pc; try discriminate H; destruct rc; destruct lf; destruct cg; destruct cl; destruct nl; destruct wh;
     cbn [andb orb] in H; try discriminate H; inversion H; subst s'; clear H;
-    unfold cinv, cset; cbn [c_recheck c_wheld c_pending c_closed c_unregs c_nil c_registered c_panic c_left c_pcs];
+    unfold cinv, cset; cbn [c_guard c_recheck c_wheld c_pending c_closed c_closing c_unregs c_nil c_registered c_panic c_left c_pcs c_teardowns];
     rewrite ?(cnt_upd _ _ _ _ _ E); b2z_compute;
     try (exfalso; lia);
     (split; [reflexivity|]); (split; [lia|]); (split; [lia|]); (split; [lia|]); (split; [lia|]); (split; [lia|]);
     (split; [first [reflexivity | symmetry; apply Z.eqb_neq; lia]|]); (split; [reflexivity|]); (split; [lia|]);
-    intros Hc; try discriminate Hc; specialize (H10 Hc); lia.
+    (split; [intros Hc; try discriminate Hc; specialize (H10 Hc); lia|]); (split; [lia | lia]).
 Qed.
 
 Lemma cinv_exec : forall ls s, cinv s -> cinv (cexec s ls).
@@ -188,21 +211,23 @@ Proof.
   destruct (cstep_length s i s' E) as [L1 L2]. destruct (IH s') as [L3 L4]. split; congruence.
 Qed.
 
-Lemma cexec_init_length : forall rc left n ls,
-  length (c_pcs (cexec (cinit rc left n) ls)) = n /\ c_left (cexec (cinit rc left n) ls) = left.
+Lemma cexec_init_length : forall gd rc left n ls,
+  length (c_pcs (cexec (cinit gd rc left n) ls)) = n /\ c_left (cexec (cinit gd rc left n) ls) = left.
 Proof.
-  intros rc left n ls. destruct (cexec_length ls (cinit rc left n)) as [H1 H2]. split.
+  intros gd rc left n ls. destruct (cexec_length ls (cinit gd rc left n)) as [H1 H2]. split.
   - rewrite H1. unfold cinit. cbn [c_pcs]. apply repeat_length.
   - rewrite H2. reflexivity.
 Qed.
 
 (* ---- safety in every reachable state *)
 Lemma cinv_safe : forall s, cinv s ->
-  c_panic s = false /\ c_unregs s <= 1 /\ (forall i c, nth_error (c_pcs s) i = Some (CDone c) -> c = 2 \/ c = (if c_left s then 1 else 0)).
+  c_panic s = false /\ c_unregs s <= 1 /\ c_teardowns s <= 1 /\
+  (forall i c, nth_error (c_pcs s) i = Some (CDone c) -> c = 2 \/ c = (if c_left s then 1 else 0)).
 Proof.
-  intros s [H1 [H2 [H3 [H4 [H5 [H6 [H7 [H8 [H9 H10]]]]]]]]].
-  split; [exact H8|]. split.
+  intros s [H1 [H2 [H3 [H4 [H5 [H6 [H7 [H8 [H9 [H10 [H11 H12]]]]]]]]]]].
+  split; [exact H8|]. split; [|split].
   - pose proof (unr_le_won (c_pcs s)). destruct (c_closed s); cbn [b2z] in H4; lia.
+  - pose proof (sent_le_passed (c_pcs s)). destruct (c_closing s); cbn [b2z] in H11; lia.
   - intros i c E. pose proof (cnt_zero_elem _ _ _ _ H9 E) as B. cbn [bad] in B.
     apply negb_false_iff in B. apply orb_true_iff in B. destruct B as [B|B]; apply Z.eqb_eq in B; [left | right]; exact B.
 Qed.
@@ -218,7 +243,7 @@ Qed.
 
 Lemma cprogress : forall s, cinv s -> all_returned s = false -> exists i s', cstep s i = Some s'.
 Proof.
-  intros s [H1 [H2 [H3 [H4 [H5 [H6 [H7 [H8 [H9 H10]]]]]]]]] Hnd.
+  intros s [H1 [H2 [H3 [H4 [H5 [H6 [H7 [H8 [H9 [H10 [H11 H12]]]]]]]]]]] Hnd.
   destruct (c_wheld s) eqn:Ewh; cbn [b2z] in H2.
   - (* the holder of the lock always moves *)
     destruct (cnt_pos_ex crit (c_pcs s) ltac:(lia)) as [i [pc [E C]]]. exists i.
@@ -239,6 +264,7 @@ Proof.
       unfold cstep. rewrite E.
       destruct pc; cbn in C, Ncrit, Nwait, Nbad; try discriminate.
       * replace (0 <? c_pending s) with false by (symmetry; apply Z.ltb_ge; lia). rewrite Ewh. cbn. eexists; reflexivity.
+      * destruct (c_guard s && c_closing s); eexists; reflexivity.
       * eexists; reflexivity.
       * eexists; reflexivity.
 Qed.
@@ -273,16 +299,17 @@ Qed.
 Lemma cmeasure_nonneg : forall s, 0 <= cmeasure s.
 Proof. intros s. apply csum_nonneg. intros pc. destruct pc; cbn; lia. Qed.
 
-Lemma cmeasure_init : forall rc left n, cmeasure (cinit rc left n) = 9 * Z.of_nat n.
+Lemma cmeasure_init : forall gd rc left n, cmeasure (cinit gd rc left n) = 10 * Z.of_nat n.
 Proof.
-  intros rc left n. unfold cmeasure, cinit. cbn [c_pcs]. induction n as [|k IH]; [reflexivity|].
+  intros gd rc left n. unfold cmeasure, cinit. cbn [c_pcs]. induction n as [|k IH]; [reflexivity|].
   cbn [repeat csum crk]. rewrite IH. lia.
 Qed.
 
 (* ---- once every closer has returned *)
 Lemma all_done_counts : forall left l, forallb is_cdone l = true -> cnt (bad left) l = 0 ->
   cnt won l = cnt is_win l /\ cnt unr l = cnt is_win l /\ cnt drained l = cnt is_win l /\
-  cnt crit l = 0 /\ cnt waits l = 0 /\ cnt is_win l + cnt lost l = Z.of_nat (length l).
+  cnt crit l = 0 /\ cnt waits l = 0 /\ cnt is_win l + cnt lost l = Z.of_nat (length l) /\
+  cnt passed l = cnt is_win l /\ cnt sent l = cnt is_win l.
 Proof.
   intros left l. induction l as [|y r IH]; intros Hd Hb.
   - cbn. repeat split; reflexivity.
@@ -291,52 +318,53 @@ Proof.
     unfold cnt in Hb, N. cbn [csum] in Hb.
     assert (Hb' : cnt (bad left) r = 0) by (unfold cnt; lia).
     assert (By : bad left y = false) by (destruct (bad left y); [cbn [b2z] in Hb; lia | reflexivity]).
-    destruct (IH Hr Hb') as [I1 [I2 [I3 [I4 [I5 I6]]]]].
+    destruct (IH Hr Hb') as [I1 [I2 [I3 [I4 [I5 [I6 [I7 I8]]]]]]].
     destruct y; try discriminate Hy. cbn [bad] in By. apply negb_false_iff in By.
-    unfold cnt in *. cbn [csum won unr drained crit waits lost is_win length]. rewrite Nat2Z.inj_succ.
-    rewrite I1, I2, I3, I4, I5.
+    unfold cnt in *. cbn [csum won unr drained crit waits lost is_win length passed pre sent orb]. rewrite Nat2Z.inj_succ.
+    rewrite I1, I2, I3, I4, I5, I7, I8.
     repeat split; try lia.
     destruct left; apply orb_true_iff in By; destruct By as [By|By]; apply Z.eqb_eq in By; subst code; b2z_compute; lia.
 Qed.
 
 Lemma call_returned : forall s, cinv s -> (0 < length (c_pcs s))%nat -> all_returned s = true ->
   cnt is_win (c_pcs s) = 1 /\ cnt lost (c_pcs s) = Z.of_nat (length (c_pcs s)) - 1 /\
-  c_unregs s = 1 /\ c_registered s = false /\ c_closed s = true /\ c_nil s = true /\ c_wheld s = false /\ c_pending s = 0.
+  c_unregs s = 1 /\ c_teardowns s = 1 /\ c_registered s = false /\ c_closed s = true /\ c_nil s = true /\
+  c_wheld s = false /\ c_pending s = 0.
 Proof.
-  intros s [H1 [H2 [H3 [H4 [H5 [H6 [H7 [H8 [H9 H10]]]]]]]]] Hn Hd.
-  destruct (all_done_counts (c_left s) (c_pcs s) Hd H9) as [A1 [A2 [A3 [A4 [A5 A6]]]]].
-  assert (Hc : c_closed s = true).
-  { destruct (c_closed s) eqn:Ec; [reflexivity|]. exfalso. specialize (H10 eq_refl). cbn [b2z] in H4. lia. }
-  rewrite Hc in H4. cbn [b2z] in H4.
+  intros s [H1 [H2 [H3 [H4 [H5 [H6 [H7 [H8 [H9 [H10 [H11 H12]]]]]]]]]]] Hn Hd.
+  destruct (all_done_counts (c_left s) (c_pcs s) Hd H9) as [A1 [A2 [A3 [A4 [A5 [A6 [A7 A8]]]]]]].
+  assert (Hg : c_closing s = true).
+  { destruct (c_closing s) eqn:Ec; [reflexivity|]. exfalso. specialize (H10 eq_refl). cbn [b2z] in H11. lia. }
+  rewrite Hg in H11. cbn [b2z] in H11.
   assert (W : cnt is_win (c_pcs s) = 1) by lia.
-  split; [exact W|]. split; [lia|]. split; [lia|].
+  assert (Hc : c_closed s = true) by (destruct (c_closed s); [reflexivity | cbn [b2z] in H4; lia]).
+  split; [exact W|]. split; [lia|]. split; [lia|]. split; [lia|].
   split; [rewrite H7; apply Z.eqb_neq; lia|]. split; [exact Hc|].
   split; [destruct (c_nil s); [reflexivity | cbn [b2z] in H6; lia]|].
   split; [destruct (c_wheld s); [cbn [b2z] in H2; lia | reflexivity] | lia].
 Qed.
 
 (* ---- the statement of C13_concurrent_close / C12_concurrent_close *)
-Lemma concurrent_close : forall left n ls,
-  let s := cexec (cinit true left (S n)) ls in
-  (c_panic s = false /\ c_unregs s <= 1 /\
+Lemma concurrent_close : forall recheck left n ls,
+  let s := cexec (cinit true recheck left (S n)) ls in
+  (c_panic s = false /\ c_unregs s <= 1 /\ c_teardowns s <= 1 /\
    (forall i c, nth_error (c_pcs s) i = Some (CDone c) -> c = 2 \/ c = (if left then 1 else 0))) /\
   (all_returned s = false -> exists i s', cstep s i = Some s') /\
   (all_returned s = true ->
      cnt is_win (c_pcs s) = 1 /\ cnt lost (c_pcs s) = Z.of_nat n /\
-     c_unregs s = 1 /\ c_registered s = false /\ c_closed s = true /\ c_wheld s = false /\ c_pending s = 0) /\
-  (forall ls' s', crun_eff (cinit true left (S n)) ls' = Some s' -> Z.of_nat (length ls') <= 9 * Z.of_nat (S n)).
+     c_unregs s = 1 /\ c_teardowns s = 1 /\ c_registered s = false /\ c_closed s = true /\ c_wheld s = false /\ c_pending s = 0) /\
+  (forall ls' s', crun_eff (cinit true recheck left (S n)) ls' = Some s' -> Z.of_nat (length ls') <= 10 * Z.of_nat (S n)).
 Proof.
-  intros left n ls s.
+  intros recheck left n ls s.
   assert (Hi : cinv s) by (apply cinv_exec; apply cinv_init).
-  destruct (cexec_init_length true left (S n) ls) as [Hlen Hleft].
-  change (cexec (cinit true left (S n)) ls) with s in Hlen, Hleft.
+  destruct (cexec_init_length true recheck left (S n) ls) as [Hlen Hleft].
+  change (cexec (cinit true recheck left (S n)) ls) with s in Hlen, Hleft.
   split.
-  - destruct (cinv_safe s Hi) as [S1 [S2 S3]]. split; [exact S1|]. split; [exact S2|].
-    intros i c E. rewrite <- Hleft. exact (S3 i c E).
+  - destruct (cinv_safe s Hi) as [S1 [S2 [S3 S4]]]. split; [exact S1|]. split; [exact S2|]. split; [exact S3|].
+    intros i c E. rewrite <- Hleft. exact (S4 i c E).
   - split; [exact (cprogress s Hi)|]. split.
-    + intros Hd. destruct (call_returned s Hi ltac:(rewrite Hlen; apply Nat.lt_0_succ) Hd) as [R1 [R2 [R3 [R4 [R5 [_ [R7 R8]]]]]]].
+    + intros Hd. destruct (call_returned s Hi ltac:(rewrite Hlen; apply Nat.lt_0_succ) Hd) as [R1 [R2 [R3 [R4 [R5 [R6 [_ [R8 R9]]]]]]]].
       split; [exact R1|]. split; [rewrite R2, Hlen, Nat2Z.inj_succ; lia|]. repeat split; assumption.
     + intros ls' s' H. pose proof (crun_eff_bound ls' _ _ H) as Hb. rewrite cmeasure_init in Hb.
       pose proof (cmeasure_nonneg s'). lia.
 Qed.
-
